@@ -128,7 +128,7 @@ class Gen:
             for _ in range(5):
                 a, sh = self.range_on(home)
                 if self.range_ok(a, sh, own):
-                    f = rng.choice(['SUM', 'SUM', 'COUNTA'])
+                    f = rng.choice(['SUM', 'SUM', 'COUNTA', 'MAX', 'MIN', 'AVERAGE', 'COUNT'])
                     args = [a] + ([self.expr(home, own, depth + 1)] if rng.random() < 0.3 else [])
                     if self.names and rng.random() < 0.2:
                         rn = [n for n, t in self.names.items() if t['k'] == 'range']
